@@ -434,6 +434,7 @@ ares_status_t ares_sconfig_append(const ares_channel_t   *channel,
 {
   ares_sconfig_t *s;
   ares_status_t   status;
+  ares_bool_t     created = ARES_FALSE;
 
   if (sconfig == NULL || addr == NULL) {
     return ARES_EFORMERR; /* LCOV_EXCL_LINE: DefensiveCoding */
@@ -455,6 +456,7 @@ ares_status_t ares_sconfig_append(const ares_channel_t   *channel,
       status = ARES_ENOMEM; /* LCOV_EXCL_LINE: OutOfMemory */
       goto fail;            /* LCOV_EXCL_LINE: OutOfMemory */
     }
+    created = ARES_TRUE;
   }
 
   memcpy(&s->addr, addr, sizeof(s->addr));
@@ -486,6 +488,13 @@ ares_status_t ares_sconfig_append(const ares_channel_t   *channel,
 
 fail:
   ares_free(s);
+
+  /* Don't hand back an empty list created by this very call when reporting an
+   * error, callers don't expect to own anything in that case */
+  if (created && status != ARES_SUCCESS) {
+    ares_llist_destroy(*sconfig);
+    *sconfig = NULL;
+  }
 
   return status;
 }
@@ -967,7 +976,8 @@ ares_status_t ares_in_addr_to_sconfig_llist(const struct in_addr *servers,
            sizeof(sconfig->addr.addr.addr4));
 
     if (ares_llist_insert_last(s, sconfig) == NULL) {
-      goto fail; /* LCOV_EXCL_LINE: OutOfMemory */
+      ares_free(sconfig); /* LCOV_EXCL_LINE: OutOfMemory */
+      goto fail;          /* LCOV_EXCL_LINE: OutOfMemory */
     }
   }
 
